@@ -536,6 +536,11 @@ func unspill(v ssa.Value) ssa.Value {
 			}
 		}
 		if n != 1 {
+			// re-assigned local: the value at this load is still determined when exactly one store reaches it
+			if sts := reachingStores(al, u); len(sts) == 1 {
+				v = sts[0].Val
+				continue
+			}
 			return v
 		}
 		v = only
